@@ -95,13 +95,13 @@ Definition all_causes : list cause :=
 
 Definition all_inputs : list input :=
   [IReqHead; IConnect None] ++ map (fun k => IConnect (Some k)) all_causes ++
-  [IReqSent; IBackPartial; IBackHead; IBackEnd; IBackNoKeepAlive; IBackClose;
+  [IReqSent; IBackPartial; IBackHead; IBackEnd; IBackNoKeepAlive; IBackClose; IBackGarbage;
    IFrontWrite true; IFrontWrite false; IFrontTimeout; IBackTimeout; IClientClose].
 
 Lemma all_inputs_complete : forall i, In i all_inputs.
 Proof.
   intros i; unfold all_inputs, all_causes; cbn.
-  destruct i as [ | [k|] | | | | | | | [|] | | | ]; try destruct k;
+  destruct i as [ | [k|] | | | | | | | | [|] | | | ]; try destruct k;
     repeat (try (left; reflexivity); right).
 Qed.
 
@@ -244,8 +244,12 @@ Definition p_front_timeout (x : st) (i : input) : bool :=
 Definition p_back_close (x : st) (i : input) : bool :=
   let s := fst x in
   match i, s_state s with
-  | (IBackClose | IBackTimeout), SLinked =>
-    implb (negb (c_closed (snd x)) && match i with IBackTimeout => c_btimer (snd x) | _ => true end)
+  | (IBackClose | IBackGarbage | IBackTimeout), SLinked =>
+    implb (negb (c_closed (snd x))
+           && match i with
+              | IBackTimeout => c_btimer (snd x)
+              | IBackGarbage => s_fcons s && negb (is_main_phase (s_phase s))
+              | _ => true end)
           (settled (nxt x i)
            || match s_state (fst (nxt x i)) with SLink => true | _ => false end)
   | _, _ => true
@@ -271,11 +275,23 @@ Definition p_armed (x : st) (i : input) : bool :=
   let s := fst (nxt x i) in let c := snd (nxt x i) in
   implb (negb (c_closed c) && s_pending s && (is_main_phase (s_phase s) || is_error (s_phase s)))
         (armed c)
-  && implb (negb (c_closed c) && is_error (s_phase s) && in_flight s) (armed c).
+  (* a forced termination is either still to be written (armed), or (H1 only) already
+     handled by a write pass and waiting for the frontend timer to close the connection *)
+  && implb (negb (c_closed c) && is_error (s_phase s) && in_flight s)
+           (armed c || (negb (c_h2 c) && c_ftimer c && negb (s_pending s))).
+
+(** on an H1 frontend a response relayed under "Connection: close" (the only
+    delimiter of a body without length) ends with the connection: nothing can
+    be written after it *)
+Definition is_close (e : ev) := match e with EvClose => true | _ => false end.
+Definition p_close_delim (x : st) (i : input) : bool :=
+  implb (has_ev is_relay_end (evs x i) && negb (c_h2 (snd x)) && negb (s_ka (fst x)))
+        (has_ev is_close (evs x i) && c_closed (snd (nxt x i))).
 
 Definition p_all (x : st) (i : input) : bool :=
   p_monitor x i && p_relay_clean x i && p_clean_source x i && p_truncated x i && p_timer x i
-  && p_front_timeout x i && p_back_close x i && p_connect x i && p_budget x i && p_armed x i.
+  && p_front_timeout x i && p_back_close x i && p_connect x i && p_budget x i && p_armed x i
+  && p_close_delim x i.
 
 End WithRedirect.
 
@@ -369,7 +385,7 @@ Lemma split_p_all x i :
   p_monitor redir x i = true /\ p_relay_clean redir x i = true /\ p_clean_source redir x i = true /\
   p_truncated redir x i = true /\ p_timer redir x i = true /\ p_front_timeout redir x i = true /\
   p_back_close redir x i = true /\ p_connect redir x i = true /\ p_budget redir x i = true /\
-  p_armed redir x i = true.
+  p_armed redir x i = true /\ p_close_delim redir x i = true.
 Proof.
   unfold p_all; intros H.
   repeat (apply andb_true_iff in H as [H ?]). repeat split; assumption.
@@ -447,7 +463,7 @@ Proof.
       set (y := run_st redir (fresh, init_conn h2) hist).
       assert (Hy : In y reach0) by (apply run_st_in_reach, init_in_reach).
       pose proof (local redir y i Hy) as L. apply split_p_all in L.
-      destruct L as (_ & _ & _ & _ & _ & _ & _ & _ & L & _).
+      destruct L as (_ & _ & _ & _ & _ & _ & _ & _ & L & _ & _).
       unfold p_budget in L. apply Nat.leb_le in L. exact L.
 Qed.
 
@@ -551,9 +567,23 @@ Proof.
     set (y := run_st redir (fresh, init_conn h2) hist).
     assert (Hy : In y reach0) by (apply run_st_in_reach, init_in_reach).
     pose proof (local redir y i Hy) as L. apply split_p_all in L.
-    destruct L as (_ & _ & _ & _ & L1 & _ & _ & _ & _ & L2).
+    destruct L as (_ & _ & _ & _ & L1 & _ & _ & _ & _ & L2 & _).
     split.
     + intros Hc. unfold p_timer in L1. rewrite Hc in L1. exact L1.
     + intros Hc Hp Hm. unfold p_armed in L2. rewrite Hc, Hp, Hm in L2. cbn in L2.
       apply andb_true_iff in L2 as [L2 _]. exact L2.
+Qed.
+
+Lemma close_delimited_ends_connection_proof :
+  forall (redir : option N) (h2 : bool) (history : list input) (i : input),
+    let x := run_st redir (fresh, init_conn h2) history in
+    existsb is_relay_end (evs redir x i) = true -> c_h2 (snd x) = false -> s_ka (fst x) = false ->
+    existsb is_close (evs redir x i) = true /\ c_closed (snd (nxt redir x i)) = true.
+Proof.
+  intros redir h2 history i x Hr Hh Hk.
+  assert (Hx : In x reach0) by (apply run_st_in_reach, init_in_reach).
+  pose proof (local redir x i Hx) as L. apply split_p_all in L.
+  destruct L as (_ & _ & _ & _ & _ & _ & _ & _ & _ & _ & L).
+  unfold p_close_delim, has_ev in L. rewrite Hr, Hh, Hk in L. cbn in L.
+  apply andb_true_iff in L. exact L.
 Qed.
